@@ -52,15 +52,21 @@ static void rotations(unsigned long long& unit)
 	auto A = axes();
 	auto ang = angles();
 	mc::alphabet("axes", A.size());
-	mc::alphabet("axis_lengths", 3);
+	mc::alphabet("axis_lengths", 7);
 	mc::alphabet("angles", ang.size());
 	long long cases = 0;
 	for(size_t ai = 0; ai < A.size(); ai++)
-		for(double len : {1e-6, 1.0, 1e6})
+		for(double len : {1e-6, 1.0, 1e6, -1.0, -2.0, -3.0, -4.0})
 		{
 			if(!mc::mine(unit++)) continue;
 			ld nx = A[ai].x, ny = A[ai].y, nz = A[ai].z, nn = sqrtl(nx * nx + ny * ny + nz * nz);
 			nx /= nn; ny /= nn; nz /= nn;
+			// negative codes: axes of length (almost) one - normalised in binary64, and 1 +- 3e-7, 1 + 1e-9 times that
+			if(len < 0)
+			{
+				double d0 = std::sqrt(A[ai].x * A[ai].x + A[ai].y * A[ai].y + A[ai].z * A[ai].z);
+				len = (len == -1.0 ? 1.0 : len == -2.0 ? 1.0 + 3e-7 : len == -3.0 ? 1.0 - 3e-7 : 1.0 + 1e-9) / d0;
+			}
 			Vector axis({A[ai].x * len, A[ai].y * len, A[ai].z * len});
 			// two vectors perpendicular to the axis
 			ld px = ny, py = -nx, pz = 0;
